@@ -435,3 +435,8 @@ _add(
     "C22",
     m("is-recorded-before-commit", D, "            recorded.append(parent_handle)\n", "            parent_handle.__handle__.is_recorded = True\n", "C22.2"),
 )
+_add(
+    "C23",
+    m("call-order-with-gaps", D, "                for i, child_call_hash in enumerate(recorded_children):\n                    session.add(", "                for i, child_call_hash in enumerate(child_call_hashes):\n                    if child_call_hash in recorded_child_hashes:\n                      session.add(", "C23.6"),
+    m("children-exported-unordered", SER, "                for edge in sorted(call_node.child_edges, key=lambda edge: edge.call_order)", "                for edge in call_node.child_edges", "C23.6"),
+)
